@@ -657,7 +657,7 @@ func (ec *evalCtx) binary(x *CBin) (TV, error) {
 	default:
 		return TV{}, fmt.Errorf("unsupported operator %s", x.Op)
 	}
-	if a.T.Sort != b.T.Sort && op != token.SHL && op != token.SHR {
+	if a.T.Sort != b.T.Sort && op != token.SHL && op != token.SHR && !(isMathIntSort(a.T.Sort) && isMathIntSort(b.T.Sort)) {
 		return TV{}, fmt.Errorf("operands of %s have different sorts (%s: %s, %s: %s)", x.Op, a.Ty, a.T.Sort, b.Ty, b.T.Sort)
 	}
 	t, err := ec.pureBinop(op, a, b)
